@@ -189,8 +189,9 @@ def match_known(known, f):
             continue
         # an entry names a function, or the public top-level definition that encloses a privately named nested function
         # (`module:factory` matches findings in `module:factory.func`, `module:factory.func.helper`, ...)
-        if e['function'] != f.function and not f.function.startswith(e['function'] + '.') and \
-                not f.function.startswith(e['function'] + ':'):
+        # ... or, for a private module-level helper, the one public top-level definition it works for (cli.attach_owners)
+        names = [f.function] + list(getattr(f, 'owners', ()))
+        if not any(e['function'] == nm or nm.startswith(e['function'] + '.') or nm.startswith(e['function'] + ':') for nm in names):
             continue
         if norm(e['construct']) != f.construct:
             continue
